@@ -10,6 +10,7 @@ import (
 	"net"
 	"net/netip"
 	"reflect"
+	"slices"
 	"strconv"
 	"sync"
 	"time"
@@ -364,6 +365,13 @@ func (a *Agent) gatherCandidatesLocal(ctx context.Context, networkTypes []Networ
 			}
 
 			for _, network := range verifhook.Keys("gather.local.networks", networks) {
+				// The address families and the transports are enabled by the same list:
+				// udp6 together with tcp4 enables neither udp4 nor tcp6.
+				if networkType, ntErr := determineNetworkType(network, addr); ntErr != nil ||
+					!slices.Contains(networkTypes, networkType) {
+					continue
+				}
+
 				type connAndPort struct {
 					conn net.PacketConn
 					port int
